@@ -129,7 +129,7 @@ class CaseResult:
         self.ok = []; self.viol = []; self.inconclusive = []; self.forks = 0
 
 
-def run_case(mod, sig, name, sym_inputs, base_constraints, oracle, budget=120, abort_ok=False, max_paths=4000, expect_abort=None):
+def run_case(mod, sig, name, sym_inputs, base_constraints, oracle, budget=120, abort_ok=False, max_paths=4000, expect_abort=None, noop_stubs=()):
     """sym_inputs: dict name -> value (python int or z3 term) for scalars, list for 'in' arrays, count for 'out' arrays
     oracle(get, rv) -> list of (label, z3 Bool / python bool); get(name, k) reads output cell k (z3 term or int)
     returns CaseResult; violations carry a concrete model of all symbolic inputs"""
@@ -138,6 +138,8 @@ def run_case(mod, sig, name, sym_inputs, base_constraints, oracle, budget=120, a
     from ir import rbtree
     rbtree.install(ex)
     ex.stubs['verif_choose'] = lambda ex_, st_, args_, work_: ex_.concretize(st_, args_[0], work_, maxvals=64)
+    for nm_ in noop_stubs:
+        ex.stubs[nm_] = lambda ex_, st_, args_, work_: 0
     st = ex.new_state(); st.pc = list(base_constraints)
     args = []; ptrs = {}
     for s in sig.spec:
@@ -225,12 +227,14 @@ def run_case(mod, sig, name, sym_inputs, base_constraints, oracle, budget=120, a
     return R, ex
 
 
-def concrete_run(mod, sig, values, budget=60):
+def concrete_run(mod, sig, values, budget=60, noop_stubs=()):
     """run the interpreter on fully concrete inputs; returns dict like Native.run"""
     ex = irsym.Executor(mod, timeout=budget)
     from ir import rbtree
     rbtree.install(ex)
     ex.stubs['verif_choose'] = lambda ex_, st_, args_, work_: args_[0]
+    for nm_ in noop_stubs:
+        ex.stubs[nm_] = lambda ex_, st_, args_, work_: 0
     st = ex.new_state(); args = []; ptrs = {}
     for s in sig.spec:
         v = values[s[1]]
